@@ -90,6 +90,10 @@ class ExprMixin2:
                     xs.append(self.unbox(tj, pt, st) if sort_of_type(pt) == Val else V(pt, tj))
                 return [(st, V("tuple", xs=xs))]
             t = st.read(f"{decl}.{name}", r, sort_of_type(ty))
+            if name == "info" and decl == "fickle.Opcode" and self.class_info is not None and cls:
+                ci = self.class_info(self, st, cls)
+                if ci is not None and len(self.repo.subclasses(cls)) == 1:
+                    st.assume(t == box(ci))         # instances do not shadow the class attribute set by __init_subclass__ (except via the ctor)
             if decl == "ast":
                 # ghost invariant: whatever an AST node field refers to carries the node-owned flag (set at every store into such a field)
                 st.assume(z3.Implies(Val.is_R(t), z3.Select(st.comp("list.nodeowned"), Val.r(t))))
@@ -165,6 +169,10 @@ class ExprMixin2:
                 return self.lit(self.repo.const(cls, name))
             if name == "__name__":
                 return vstr(cls.split(".")[-1])
+            if name == "info" and self.class_info is not None:
+                ci = self.class_info(self, st, cls)
+                if ci is not None:
+                    return ci
             ft = self.fields.get("classobj:" + cls, {}).get(name)
             if ft is not None:
                 t = st.read(f"classobj:{cls}.{name}", z3.IntVal(static_ref("class:" + cls)), sort_of_type(ft))
@@ -546,6 +554,11 @@ class ExprMixin2:
 
     def binop(self, op, a, b, st, node):
         numeric = ("int", "bool")
+        if (a.k in numeric and b.k == "val" and b.cls is None) or (b.k in numeric and a.k == "val" and a.cls is None):
+            # arithmetic with a boxed value: it is a number here (anything else raises TypeError in Python; recorded as a type assumption)
+            st.log.append(("assume-int", getattr(node, "lineno", 0)))
+            a = a if a.k in numeric else vint(self.as_int(a))
+            b = b if b.k in numeric else vint(self.as_int(b))
         if a.k in numeric and b.k in numeric:
             x, y = self.as_int(a), self.as_int(b)
             if op is ast.Add:
